@@ -32,7 +32,8 @@ BUDGET = {
 
 @st.composite
 def _file(draw):
-    spec = draw(c01._layout(d_strategy=st.integers(1, 4), n_strategy=st.integers(3, 8), widths_pool=[8, 16, 24, 32]))
+    spec = draw(c01._layout(d_strategy=st.integers(1, 4), n_strategy=st.integers(3, 8), widths_pool=[8, 16, 24, 32],
+                           narrow=st.sampled_from([True, False, False, False])))
     spec['pad'] = [draw(st.integers(0, 6)), draw(st.integers(0, 9)), draw(st.integers(0, 6))]
     spec['trail'] = draw(st.integers(0, 3))
     # no ANALYSIS segment: the reader documents that an unparseable ANALYSIS segment is replaced by an empty
